@@ -395,6 +395,26 @@ def run(prop, tier, seed):
                 scenarios.append(free_scenario(behs[j:j + 2], sid, conc))
                 meta[sid] = None
         all_events, deadlocks, stuck = drive(scenarios, wd)
+        # the SHIPPED PROGRAM under real concurrency: the free-running groups are also sent to the real dirk binary, every request
+        # from its own goroutine over TLS; the final database is read through badger
+        bin_groups = 0
+        if prop == "C04":
+            bscs = [dict(s_, id=s_["id"] + "-bin") for s_ in scenarios if "-free" in s_["id"]][:12 if tier == "quick" else 120]
+            bev, brc, berr = run_driver_parallel_bin(bscs, wd, build_dirk())
+            if brc != 0:
+                raise Inconclusive("free-running groups against the dirk binary: driver exited %s: %s" % (brc, berr[-300:]))
+            for sid_, evs_ in split_scenarios(bev).items():
+                if any(e["ev"] == "Respond" and "ERROR" in e["res"] for e in evs_):
+                    raise Inconclusive("a request to the dirk binary ended in a transport error in %s" % sid_)
+                for e in evs_:
+                    if e["ev"] == "RawDump":
+                        evs_.append(dict(ev="Export", r="final", db=e["db"]))
+                        break
+                all_events[sid_] = evs_
+            scenarios += bscs
+            for s_ in bscs:
+                meta[s_["id"]] = None
+            bin_groups = len(bscs)
         if stuck:
             raise Inconclusive("watchdog fired without blocked-in-Lock evidence in %s" % stuck[:3])
         ndev = sum(1 for sid, evs in all_events.items() for e in evs if e["ev"] == "Sched" and e["deviations"])
@@ -451,7 +471,7 @@ def run(prop, tier, seed):
             dlines, dindex, reqs = [], [], set()
             for sc in scenarios:
                 sid = sc["id"]
-                if sid in dl or sid not in all_events:
+                if sid in dl or sid not in all_events or sid.endswith("-bin"):      # the binary's internal steps are not observable
                     continue
                 st_ = len(dlines) + 1
                 project_detail(sid, all_events[sid], dlines)
@@ -520,7 +540,7 @@ def run(prop, tier, seed):
                            [dict(kind="recorded-history", lines=sample)] if sample else
                            [dict(kind="attack-schedule", origin=a["origin"], schedule=a["sched"][:40]) for a in attacks[:3]],
                    model_runs=info["model_runs"], mutants=info["mutants"], mutants_expected=len(MUTANTS[prop]), mutants_killed=len(info["mutants"]),
-                   schedules_imposed=len(gated), free_running_groups=len(scenarios) - len(gated),
+                   schedules_imposed=len(gated), free_running_groups=len(scenarios) - len(gated), free_running_groups_against_the_dirk_binary=bin_groups,
                    schedules_with_deviation=ndev, blocked_observations=nblocked, deadlocks_observed=len(deadlocks),
                    drift=drift[:10], drift_count=len(drift), exhaustive=False, layer_d_trace_validation=info.get("detail"), repo_tests_as_traces=info.get("repo_tests_as_traces"),
                    checker_cmd="tlc MCSigner / SignerSim / AtomicTrace (see lib/concfamily.py)")
